@@ -7,34 +7,34 @@ set_option linter.unusedSectionVars false
 namespace Juno.C04
 open Map
 
-/-- The legacy backend as found in /repo (commit 05cf200 included, no proposed repair applied
-to the state part; the window repair is left open). -/
-def Cfg.isLegacyAsFound (cfg : Cfg) : Prop :=
-  cfg.legacy = true ∧ cfg.zeroWriteFix = true ∧ cfg.legacyPurgeOnUpdate = false ∧ cfg.removeImplicitClasses = false
+/-- The legacy backend as found in /repo: commit 05cf200 included, no system-contract purge in
+`Update`. (The repairs 64c1acb `removeImplicitClasses` and 702b167 `dropReopenedWindow` may or may
+not be applied: the hypotheses adapt.) The new backend has no such switch. -/
+def Cfg.asFound (cfg : Cfg) : Prop :=
+  0 < cfg.window ∧ (cfg.legacy = true → cfg.zeroWriteFix = true ∧ cfg.legacyPurgeOnUpdate = false)
 
-/-- Everything the one-step theorem assumes about the node before the block and about the block. -/
+/-- Everything the one-step theorem needs: the per-block buckets' invariant, the freshness facts,
+the CASM and filter facts, and that `State.Revert` undoes `State.Update` for this block (proved from
+`LegacyOK` / `NewOK` in `legacy_revert_update` / `new_revert_update`). -/
 structure StepOK (cfg : Cfg) (nd : Node) (b : Block) : Prop where
   index : IndexWF nd
   fresh : Fresh nd b
   casm : CasmOK nd.casm b
   filter : FilterOK cfg nd.running nd.persisted b.number
-  state : ∀ casm', storeCasm b.number b nd.casm = .ok casm' → LegacyOK nd.st casm' b
-  /-- the block does not close an event-filter window, unless `onReorg` is repaired -/
+  state : ∀ casm', storeCasm b.number b nd.casm = .ok casm' → StateInverse cfg nd.st b casm'
+  /-- the block does not close an event-filter window, unless `onReorg` is repaired (702b167) -/
   window : cfg.dropReopenedWindow = true ∨ b.number ≠ nd.running.fromBlock + cfg.window - 1
 
-theorem revert_store_legacy {cfg : Cfg} (hc : cfg.isLegacyAsFound) {nd nd' : Node} {b : Block}
-    (ok : StepOK cfg nd b) (h : store cfg nd b = .ok nd') : revert cfg nd' = .ok nd := by
-  obtain ⟨hleg, hfix, hpu, him⟩ := hc
-  apply revert_store_of_parts cfg ok.index ok.fresh ?_ ok.casm ok.filter ok.window h
-  intro casm' hsc st' hus
-  exact legacy_revert_update hleg hfix hpu him (ok.state casm' hsc) hus
+theorem revert_store_step {cfg : Cfg} {nd nd' : Node} {b : Block}
+    (ok : StepOK cfg nd b) (h : store cfg nd b = .ok nd') : revert cfg nd' = .ok nd :=
+  revert_store_of_parts cfg ok.index ok.fresh ok.state ok.casm ok.filter ok.window h
 
 /-- per-step hypotheses along a chain of blocks -/
 def ChainOK (cfg : Cfg) : Node → List Block → Prop
   | _, [] => True
   | nd, b :: bs => StepOK cfg nd b ∧ ∀ nd', store cfg nd b = .ok nd' → ChainOK cfg nd' bs
 
-theorem revertN_storeAll {cfg : Cfg} (hc : cfg.isLegacyAsFound) (bs : List Block) :
+theorem revertN_storeAll {cfg : Cfg} (bs : List Block) :
     ∀ {nd ndA : Node}, ChainOK cfg nd bs → storeAll cfg nd bs = .ok ndA → revertN cfg ndA bs.length = .ok nd := by
   induction bs with
   | nil =>
@@ -53,6 +53,6 @@ theorem revertN_storeAll {cfg : Cfg} (hc : cfg.isLegacyAsFound) (bs : List Block
       have h1 := ih (hrest nd1 hs) h
       show (match revertN cfg ndA bs.length with | .ok nd' => revert cfg nd' | .error e => .error e) = _
       rw [h1]
-      exact revert_store_legacy hc hstep hs
+      exact revert_store_step hstep hs
 
 end Juno.C04
